@@ -46,8 +46,8 @@ FRESH = "zq_fresh"
 POOL = ["a", "b", "c", "x", "y"]
 INT_OPS = ["+", "-", "*"]
 CMP_OPS = ["<", ">", "<=", ">=", "==", "!="]
-ALL_FEATURES = frozenset(["assign", "while", "for", "match", "closure", "fundef", "str", "list", "dbg", "nonascii", "print"])
-MODEL_FEATURES = frozenset(["assign", "while", "closure", "fundef", "print"])
+ALL_FEATURES = frozenset(["assign", "update", "while", "for", "match", "closure", "fundef", "str", "list", "dbg", "nonascii", "print"])
+MODEL_FEATURES = frozenset(["assign", "while", "closure", "fundef", "print", "dbg"])
 
 
 # ---------------------------------------------------------------------------------------------------------------
@@ -267,7 +267,7 @@ class Gen:
             if cands:
                 n, u, t = self.pick(cands)
                 op = "="
-                if t == "Int" and r.random() < 0.4:
+                if t == "Int" and r.random() < 0.4 and "update" in self.f:
                     op = self.pick(["+=", "-="])
                 return {"k": "assign", "n": n, "id": self.nid(), "b": u, "op": op, "e": self.expr(t, 2)}
         if k == 5 and "print" in self.f:
@@ -284,7 +284,11 @@ class Gen:
             self.scopes[-1][i] = ("Int", u)
             bound = r.randrange(1, 4)
             cond = {"k": "bin", "op": "<", "l": self.var(i, u), "r": {"k": "int", "v": bound}}
-            inc = {"k": "assign", "n": i, "id": self.nid(), "b": u, "op": "+=", "e": {"k": "int", "v": 1}}
+            if "update" in self.f:
+                inc = {"k": "assign", "n": i, "id": self.nid(), "b": u, "op": "+=", "e": {"k": "int", "v": 1}}
+            else:
+                inc = {"k": "assign", "n": i, "id": self.nid(), "b": u, "op": "=",
+                       "e": {"k": "bin", "op": "+", "l": self.var(i, u), "r": {"k": "int", "v": 1}}}
             body = self.block(r.randrange(1, 3), d + 1)
             return {"k": "seq", "ss": [{"k": "let", "n": i, "id": u, "e": {"k": "int", "v": 0}},
                                        {"k": "while", "c": cond, "b": [inc] + body}]}
@@ -688,23 +692,77 @@ def gen_program(rng, size=8, features=ALL_FEATURES, pool=POOL):
 # ---------------------------------------------------------------------------------------------------------------
 # Running the refactoring commands of the real CLI
 
-def refactor_cli(exe, cmd, src, args, timeout=60):
+def cli_args(cmd, off, end, name):
+    if cmd == "rename":
+        return [str(off), "--new-name", name]
+    if cmd in ("extract-variable", "extract-function"):
+        return [str(off), str(end), "--name", name]
+    return [str(off), str(end)]
+
+
+def refactor_cli(exe, cmd, src, off, end=None, name=None, timeout=60):
     """One `garden reftest-<cmd> file args...` process. Returns (rc, stdout, stderr)."""
     d = tempfile.mkdtemp(dir=oracle.scratch_dir())
     try:
         p = os.path.join(d, "prog.gdn")
         with open(p, "wb") as f:
             f.write(src.encode("utf-8"))
-        rc, out, err = oracle.garden_cli(exe, ["reftest-" + cmd, p] + [str(a) for a in args], timeout=timeout, cwd=d)
+        rc, out, err = oracle.garden_cli(exe, ["reftest-" + cmd, p] + cli_args(cmd, off, end, name), timeout=timeout, cwd=d)
     finally:
         shutil.rmtree(d, ignore_errors=True)
     return rc, out, err
 
 
-def refactor_many(exe, jobs):
-    """jobs: list of (cmd, src, args). Parallel over the CPUs. Returns list of (rc, out, err)."""
+_HOOK = {}
+
+
+def hook_supported(exe):
+    if exe not in _HOOK:
+        r = oracle.batch(exe, [{"op": "refactor", "kind": "rename", "src": "let a = 1\n", "offset": 4, "name": "b"}])[0]
+        _HOOK[exe] = r.get("ok") == "let b = 1\n"
+    return _HOOK[exe]
+
+
+def refactor_many(exe, jobs, ctx=None, cli_sample=12):
+    """jobs: list of (cmd, src, offset, end_offset, name). Returns list of (rc, out, err).
+    Uses the in-process hook op `refactor` (the same Rust functions the reftest-* subcommands call) when the binary has
+    it, and the plain CLI otherwise; with the hook, every cli_sample-th job is also run through the CLI and compared."""
+    def cli(j):
+        return refactor_cli(exe, j[0], j[1], j[2], j[3], j[4])
+    if not hook_supported(exe):
+        if ctx:
+            ctx.stat("refactoring requests through the CLI", len(jobs))
+        with concurrent.futures.ThreadPoolExecutor(common.NCPU) as ex:
+            return list(ex.map(cli, jobs))
+    reqs = [{"op": "refactor", "kind": j[0], "src": j[1], "offset": j[2], "end_offset": j[3] if j[3] is not None else j[2],
+             "name": j[4] or ""} for j in jobs]
+    res = oracle.batch(exe, reqs, timeout=1800)
+    out = []
+    for r in res:
+        if "ok" in r:
+            out.append((0, r["ok"], ""))
+        elif "err" in r:
+            out.append((10, "", r["err"] + "\n"))
+        else:
+            out.append((101, "", json.dumps(r)[:300]))
+    idx = list(range(0, len(jobs), cli_sample))
     with concurrent.futures.ThreadPoolExecutor(common.NCPU) as ex:
-        return list(ex.map(lambda j: refactor_cli(exe, j[0], j[1], j[2]), jobs))
+        cl = list(ex.map(lambda i: cli(jobs[i]), idx))
+    for i, c in zip(idx, cl):
+        if ctx:
+            ctx.stat("refactoring requests cross-checked through the CLI")
+        if (c[0], c[1]) != (out[i][0], out[i][1]) and not (c[0] == 101 and out[i][0] == 101):
+            if ctx:
+                ctx.broken("hook-vs-cli:" + jobs[i][0], "hook and CLI disagree on %s: %s vs %s" % (jobs[i][2:], out[i], c))
+            out[i] = c
+    if ctx:
+        ctx.stat("refactoring requests through the hook", len(jobs))
+    return out
+
+
+def confirm_cli(exe, job):
+    """Re-run one job through the plain CLI (the oracle of record)."""
+    return refactor_cli(exe, job[0], job[1], job[2], job[3], job[4])
 
 
 def run_many(exe, srcs, tick_limit=20000):
@@ -738,6 +796,174 @@ def apply_rename(src_bytes, spans, new):
         i = e
     out += src_bytes[i:]
     return bytes(out)
+
+
+# ---------------------------------------------------------------------------------------------------------------
+# Encoding of programs of the Coq model's fragment for ocaml/ops_refactor.ml
+
+class Encoder:
+    def __init__(self):
+        self.names = {}
+
+    def nm(self, n):
+        if n not in self.names:
+            self.names[n] = len(self.names)
+        return str(self.names[n])
+
+    def block(self, ss):
+        return "%d %s" % (len(ss), " ".join(self.stmt(s) for s in ss))
+
+    def stmt(self, s):
+        k = s["k"]
+        if k == "let":
+            return "L %d %s %s" % (s["id"], self.nm(s["n"]), self.expr(s["e"]))
+        if k == "assign":
+            if s["op"] != "=":
+                raise ValueError("update assignment is outside the model")
+            return "A %d %s %s" % (s["id"], self.nm(s["n"]), self.expr(s["e"]))
+        if k == "while":
+            return "W %s %s" % (self.expr(s["c"]), self.block(s["b"]))
+        return "E " + self.expr(s)
+
+    def expr(self, e):
+        k = e["k"]
+        if k == "int":
+            return "I %d" % e["v"]
+        if k == "bool":
+            return "B %d" % (1 if e["v"] else 0)
+        if k == "var":
+            return "V %d %s" % (e["id"], self.nm(e["n"]))
+        if k == "paren":
+            return self.expr(e["e"])
+        if k == "bin":
+            return "O %s %s %s" % (e["op"], self.expr(e["l"]), self.expr(e["r"]))
+        if k == "call":
+            return "C %d %s %s" % (len(e["args"]), self.expr(e["f"]), " ".join(self.expr(a) for a in e["args"]))
+        if k == "fun":
+            return "F %d %s %s" % (len(e["ps"]), " ".join("%d %s" % (u, self.nm(n)) for n, u in e["ps"]), self.block(e["body"]))
+        if k == "if":
+            return "IF %s %s %s" % (self.expr(e["c"]), self.block(e["t"]), self.block(e["e"] or []))
+        if k == "dbg":
+            return "D " + self.expr(e["e"])
+        if k == "println":
+            return "P " + self.expr(e["e"])
+        raise ValueError("outside the model: " + k)
+
+    def program(self, prog):
+        funs = [it for it in prog if it["k"] == "fundef"]
+        main = [it for it in prog if it["k"] != "fundef"]
+        fs = []
+        for f in funs:
+            fs.append("%s %d %d %s %s" % (self.nm(f["n"]), f["id"], len(f["ps"]),
+                                         " ".join("%d %s" % (u, self.nm(n)) for n, u in f["ps"]), self.block(f["body"])))
+        return "%d %s %s" % (len(funs), " ".join(fs), self.block(main))
+
+
+def model_part(ctx, exe, rng):
+    """Programs inside the Coq model's fragment: the extracted `rename` / `res_prog` / `run` against the binary."""
+    mdl = ctx.model("refactor")
+    if not mdl:
+        return
+    n = 300 if ctx.thorough else 40
+    progs = []
+    while len(progs) < n:
+        prog = gen_program(rng, size=5, features=MODEL_FEATURES)
+        if prog[0]["k"] != "fundef" and any(it["k"] == "fundef" for it in prog):
+            continue
+        progs.append(prog)
+    lines, jobs, meta = [], [], []
+    res_lines, run_lines = [], []
+    rendered = []
+    for prog in progs:
+        src, pr = render(prog, rng)
+        enc = Encoder()
+        text = enc.program(prog)
+        fresh_no = 100000
+        rs, groups = occurrences(prog)
+        kinds = binder_kinds(prog)
+        rendered.append((src, pr, enc, rs))
+        res_lines.append("rf_resolve\t" + text)
+        run_lines.append("rf_run\t400\t" + text)
+        for b, occs in groups.items():
+            lines.append("rf_rename\t%d\t%d\t%s" % (b, fresh_no, text))
+            st, en, nm = pr.occ[b]
+            jobs.append(("rename", src, st, None, FRESH))
+            meta.append((src, pr, enc, b, fresh_no, kinds.get(b, "?")))
+    rc, mres, err = common.run_lines(mdl, [], lines + res_lines + run_lines, timeout=900, shards=common.NCPU)
+    m_rename, m_res, m_run = mres[:len(lines)], mres[len(lines):len(lines) + len(res_lines)], mres[len(lines) + len(res_lines):]
+    outs = refactor_many(exe, jobs, ctx)
+    bad = []
+    for (src, pr, enc, b, fresh_no, kind), mline, (rc, out, err) in zip(meta, m_rename, outs):
+        ctx.stat("model rename compared (%s)" % kind)
+        inv = {v: k for k, v in enc.names.items()}
+        try:
+            spans = []
+            sb = src.encode("utf-8")
+            pieces = []
+            for tok in mline.split():
+                o, x = tok.split(":")
+                st, en, nm = pr.occ[int(o)]
+                pieces.append((st, en, FRESH if int(x) == fresh_no else inv[int(x)]))
+            pieces.sort()
+            outb, i = bytearray(), 0
+            for st, en, nm in pieces:
+                outb += sb[i:st] + nm.encode()
+                i = en
+            outb += sb[i:]
+            expected = outb.decode("utf-8")
+        except Exception as ex:      # the model answered something unparsable
+            expected = "<model: %s>" % mline[:100]
+        if rc != 0 or out != expected:
+            bad.append({"src": src, "binder": b, "model": expected, "impl": out if rc == 0 else err})
+    if bad:
+        ctx.broken("correspondence:rename", "%d of %d renames differ between the extracted model and reftest-rename, e.g. %s"
+                   % (len(bad), len(meta), json.dumps(bad[0])[:1200]))
+    # resolution table of the model vs the Python resolver (the independent oracle of the search)
+    badr = 0
+    for (src, pr, enc, rs), line in zip(rendered, m_res):
+        ctx.stat("model resolution compared")
+        table = {}
+        for tok in line.split():
+            o, d = tok.split(":")
+            table[int(o)] = None if d == "-" else int(d)
+        mine = dict(rs.res)
+        for b_ in rs.binders:
+            mine[b_] = b_
+        if table != mine:
+            badr += 1
+            ctx.cov.setdefault("resolver_mismatch", {"src": src, "model": line[:300]})
+    if badr:
+        ctx.broken("correspondence:resolve", "%d resolution tables differ between Scope.res_prog and the Python resolver" % badr)
+    # reference semantics vs the evaluator: stdout lines and final value
+    runs = run_many(exe, [r[0] for r in rendered])
+    badrun = []
+    for (src, pr, enc, rs), line, rr in zip(rendered, m_run, runs):
+        if line == "oom" or " | " not in (" " + line):
+            ctx.stat("model run: out of fuel / no answer")
+            continue
+        evs, _, res = (" " + line).rpartition(" | ")
+        evs = evs.split()
+        if any(t[1:] in ("closure",) or t[1:].startswith("fun") for t in evs):
+            ctx.stat("model run: prints a function (not compared)")
+            continue
+        m_out = "".join(t[1:] + "\n" for t in evs if t[0] == "o")
+        m_dbg = [t[1:] for t in evs if t[0] == "d"]
+        ok = True
+        if res.startswith("ok"):
+            ok = rr[0] == "ok" and rr[2] == m_out
+            val = res[3:]
+            if ok and val not in ("closure",) and not val.startswith("fun"):
+                ok = (rr[1] or "Unit") == val
+            i_dbg = [l.rsplit("//-> ", 1)[-1] for l in rr[3].splitlines() if "//-> " in l]
+            ok = ok and i_dbg == m_dbg
+        else:
+            ok = rr[0] != "ok" and rr[2] == m_out
+        ctx.stat("model run compared")
+        if not ok:
+            badrun.append({"src": src, "model": line, "impl": rr})
+    if badrun:
+        ctx.broken("correspondence:run", "%d of %d programs run differently in Scope.run and in garden, e.g. %s"
+                   % (len(badrun), len(rendered), json.dumps(badrun[0], default=str)[:1200]))
 
 
 # ---------------------------------------------------------------------------------------------------------------
@@ -792,11 +1018,11 @@ def search_rename(ctx, exe, progs, label, nonfresh=True):
                 st, en, nm = pr.occ[o]
                 # a caret anywhere inside the name must work: alternate first / last byte of the name
                 off = st if (o % 2 == 0) else en - 1
-                jobs.append(("rename", src, [off, "--new-name", FRESH]))
+                jobs.append(("rename", src, off, None, FRESH))
                 meta.append({"src": src, "offset": off, "name": nm, "binder": b, "kind": kinds.get(b, "?"),
                              "is_binder": o == b, "expected": expected, "shadowed": shadowed, "n_occ": len(occs)})
     ctx.log("%s: %d rename requests on %d programs" % (label, len(jobs), len(progs)))
-    outs = refactor_many(exe, jobs)
+    outs = refactor_many(exe, jobs, ctx)
     # run original programs once, renamed programs once per distinct output
     distinct = {}
     for m, (rc, out, err) in zip(meta, outs):
@@ -839,10 +1065,10 @@ def search_rename(ctx, exe, progs, label, nonfresh=True):
                 continue
             others = sorted(set(POOL) - {m["name"]})
             new = others[m["binder"] % len(others)]
-            jobs2.append(("rename", m["src"], [m["offset"], "--new-name", new]))
+            jobs2.append(("rename", m["src"], m["offset"], None, new))
             meta2.append(m)
         jobs2, meta2 = jobs2[:len(jobs) // 6], meta2[:len(jobs) // 6]
-        outs2 = refactor_many(exe, jobs2)
+        outs2 = refactor_many(exe, jobs2, ctx)
         keys = sorted(set(o[1] for o in outs2 if o[0] == 0))
         runs2 = dict(zip(keys, run_many(exe, keys)))
         for m, (rc, out, err) in zip(meta2, outs2):
@@ -853,6 +1079,17 @@ def search_rename(ctx, exe, progs, label, nonfresh=True):
             else:
                 ctx.stat(label + " non-fresh: same behaviour")
     return meta, outs
+
+
+TRUSTED = [
+    "Coq 8.16.1 kernel (coqc); vm_compute only in Examples",
+    "coq/Scope.v and coq/Refactor.v are HAND-WRITTEN models (lexical resolution, reference semantics, rename); tied to "
+    "src/rename.rs + src/checks/type_checker.rs + src/eval.rs by differential execution only (extracted rename vs "
+    "`garden reftest-rename`, Scope.res_prog vs the Python resolver, Scope.run vs the evaluator)",
+    "the Python generator / printer / resolver of tools/props/C19.py (occurrence id -> byte offset map)",
+    "Extraction (ExtrOcamlBasic) + ocaml/ops_refactor.ml",
+    "cfg-gated hook `garden verif-batch` op run (src/verif_hooks.rs); the refactorings themselves are run through the plain CLI",
+]
 
 
 def run(ctx):
@@ -870,7 +1107,7 @@ def run(ctx):
 
 def replay(ctx, rp):
     exe = ctx.impl()
-    rc, out, err = refactor_cli(exe, "rename", rp["input"], [rp["offset"], "--new-name", rp.get("new_name", FRESH)])
+    rc, out, err = refactor_cli(exe, "rename", rp["input"], rp["offset"], None, rp.get("new_name", FRESH))
     print("rc=%d\n%s%s" % (rc, out, err))
     if "expected" in rp:
         print("as expected" if out == rp["expected"] else "DIFFERS from expected:\n" + str(rp["expected"]))
